@@ -9,7 +9,7 @@ Open Scope N_scope.
 (* election by node 0's timer: 12 deliveries (2 pre-votes, 2 votes, 2 heartbeats, each with its answer) *)
 Lemma elect3 : forall rv,
   ndrain rv 12 (nstep rv (strip (init_default (N.of_nat 3))) (Tick 0 0 [])) = ss_gen 3 0 0 [].
-Proof. intros [[|] [|]]; vm_compute; reflexivity. Qed.
+Proof. intros [[|] [|] [|]]; vm_compute; reflexivity. Qed.
 
 (* the first append (the followers' last-entry term is still 0): 2 appends, 2 acknowledgements — the leader commits
    on the first one and sends 2 heartbeats carrying the new commit index —, 2 heartbeats, 2 answers *)
